@@ -134,27 +134,6 @@ Theorem C08_input_binarize_product : forall o s,
 Proof. exact input_binarize_product. Qed.
 Print Assumptions C08_input_binarize_product.
 
-(** ** open: the end-to-end clause
-
-    "The extended solvers return the optimum over all binary refinements of both
-    trees."  It needs the solver models of C02/C03 and the batch-update theorem
-    of C16; only its shape can be stated here, for any model [binary_opt] of the
-    binary solver's optimum and any model [extended] of the outer loop of
-    [_spfs] / [_uspfs].  Not proved; covered by the end-to-end correspondence
-    batch only (see harness/props/c08.py, OPEN_GOALS). *)
-Definition omin (a b : option N) : option N :=
-  match a, b with
-  | None, x => x
-  | x, None => x
-  | Some x, Some y => Some (N.min x y)
-  end.
-
-Definition ext_optimum_refinements_statement
-  (binary_opt : bt -> bt -> option N) (extended : rose -> rose -> option N) : Prop :=
-  forall o s,
-    extended o s =
-    fold_right omin None (map (fun p => binary_opt (fst p) (snd p)) (input_binarize o s)).
-
 (** ** completeness against the algorithm-independent characterisation
 
     A binary tree with the leaves of [t], in which every clade of [t] is the
@@ -216,3 +195,95 @@ Proof.
   split; [|repeat split].
   simpl. repeat (constructor; [simpl; intuition congruence|]). constructor.
 Qed.
+
+(** ** the end-to-end clause (Model/Poly.v, Proofs/PolyProofs.v)
+
+    "The extended solvers return the optimum over all binary refinements of both
+    trees."  [spfs_poly] / [uspfs_poly] model the outer loop of [_spfs] / [_uspfs]:
+    ONE entry receives the candidates of every refinement pair of
+    [input_binarize o s], in that order; a tag is (index of the pair, solution).
+    [refinement_input ld o s i p]: the [i]-th enumerated pair consists of refinements
+    of [o] and [s] and converts (leaf data looked up by name) to the binary input [p].
+    [ropt ld o s sol cost i t]: [t] is a solution of the [i]-th pair whose cost is
+    minimal over all enumerated pairs and all their solutions.
+
+    The theorems are statements about the enumerated pairs; that these are all the
+    refinements, each once up to the order of children, is [C08_refinement_pairs_*]
+    below (with [C08_binarize_complete], [C08_binarize_nodup]).  That the binary
+    optimum does not depend on the order of children is the remaining link to
+    "every binary refinement regardless of child order": see OPEN_GOALS. *)
+From SR Require Import Base.Ext Model.Entry Model.Recon Model.Poly Proofs.PathFacts Proofs.ThlProofs
+  Proofs.SpfsFinal Proofs.UspfsProofs Proofs.UspfsFinal Proofs.PolyProofs.
+
+Theorem C08_ext_optimum_refinements_ordered : forall c ld o s,
+  nn (c_hgt c) -> coherent_ord c -> poly_wf nonempty_syn ld o s ->
+  exists e, spfs_poly c RALL ld o s = Some e /\ NoDup (tags e) /\
+    (forall i lt, In (i, lt) (tags e) <-> ropt ld o s (spfs_solp true) (spfs_costp c) i lt) /\
+    (forall i lt, In (i, lt) (tags e) <->
+       exists p, refinement_input ld o s i p /\
+         optimal_sol (fst p) c true (orders_of (snd p)) (snd p) lt /\
+         cost_of c (snd p) lt = val e) /\
+    val e = ext_minl (map (pair_opt ld (spfs_binopt c RALL true)) (input_binarize o s)).
+Proof. exact ext_optimum_refinements. Qed.
+Print Assumptions C08_ext_optimum_refinements_ordered.
+
+Theorem C08_ext_optimum_refinements_ordered_any : forall c ld o s,
+  nn (c_hgt c) -> coherent_ord c -> poly_wf nonempty_syn ld o s ->
+  exists e, spfs_poly c RANY ld o s = Some e /\
+    ((tags e = [] /\ forall i p lt, refinement_input ld o s i p -> ~ spfs_solp true p lt) \/
+     (exists i lt, tags e = [(i, lt)] /\ ropt ld o s (spfs_solp true) (spfs_costp c) i lt)).
+Proof. exact ext_optimum_refinements_any. Qed.
+Print Assumptions C08_ext_optimum_refinements_ordered_any.
+
+Theorem C08_ext_optimum_refinements_unordered : forall c ld o s,
+  nn (c_hgt c) -> ucoherent c -> poly_wf any_syn ld o s ->
+  exists e, uspfs_poly c RALL ld o s = Some e /\ NoDup (tags e) /\
+    (forall i t, In (i, t) (tags e) <-> ropt ld o s (uspfs_solp true) (uspfs_costp c) i t) /\
+    (forall i t, In (i, t) (tags e) <->
+       exists p, refinement_input ld o s i p /\ uoptimal (fst p) c true (snd p) t /\
+         ucost c (snd p) t = val e) /\
+    val e = ext_minl (map (pair_opt ld (uspfs_binopt c RALL true)) (input_binarize o s)).
+Proof. exact ext_optimum_refinements_unordered. Qed.
+Print Assumptions C08_ext_optimum_refinements_unordered.
+
+Theorem C08_ext_optimum_refinements_unordered_any : forall c ld o s,
+  nn (c_hgt c) -> ucoherent c -> poly_wf any_syn ld o s ->
+  exists e i t, uspfs_poly c RANY ld o s = Some e /\ tags e = [(i, t)] /\
+    ropt ld o s (uspfs_solp true) (uspfs_costp c) i t.
+Proof. exact ext_optimum_refinements_unordered_any. Qed.
+Print Assumptions C08_ext_optimum_refinements_unordered_any.
+
+(* every returned solution refers to a refinement pair (trees binary, refinements of both
+   inputs, leaf data found by name) and has the returned cost -- any costs, any policy *)
+Theorem C08_solutions_refer_to_refinements : forall c ld o s,
+  nn (c_hgt c) -> poly_wf nonempty_syn ld o s ->
+  forall rp e i lt, spfs_poly c rp ld o s = Some e -> In (i, lt) (tags e) ->
+  exists ob sb p, tag_pair o s (i, lt) = Some (ob, sb) /\ refines o ob /\ refines s sb /\
+    pair_input ld (ob, sb) = Some p /\ spfs_solp true p lt /\ spfs_costp c p lt = val e.
+Proof. exact ext_solutions_refer_to_refinements. Qed.
+Print Assumptions C08_solutions_refer_to_refinements.
+
+Theorem C08_solutions_refer_to_refinements_unordered : forall c ld o s,
+  nn (c_hgt c) -> ucoherent c -> poly_wf any_syn ld o s ->
+  forall rp e i t, rp <> RNONE -> uspfs_poly c rp ld o s = Some e -> In (i, t) (tags e) ->
+  exists ob sb p, tag_pair o s (i, t) = Some (ob, sb) /\ refines o ob /\ refines s sb /\
+    pair_input ld (ob, sb) = Some p /\ uspfs_solp true p t /\ uspfs_costp c p t = val e.
+Proof. exact ext_solutions_refer_to_refinements_unordered. Qed.
+Print Assumptions C08_solutions_refer_to_refinements_unordered.
+
+(* the enumerated pairs are all pairs of refinements, each once, up to the order of children *)
+Theorem C08_refinement_pairs_complete : forall o s ob' sb',
+  refines o ob' -> refines s sb' ->
+  exists j ob sb, nth_error (input_binarize o s) j = Some (ob, sb) /\ beqv ob' ob /\ beqv sb' sb.
+Proof. exact refinement_pairs_complete. Qed.
+Print Assumptions C08_refinement_pairs_complete.
+
+Theorem C08_refinement_pairs_nodup : forall o s,
+  NoDup (rleaves o) -> arity_ok o = true -> NoDup (rleaves s) -> arity_ok s = true ->
+  ForallOrdPairs (fun a b => ~ (beqv (fst a) (fst b) /\ beqv (snd a) (snd b))) (input_binarize o s).
+Proof. exact refinement_pairs_nodup. Qed.
+Print Assumptions C08_refinement_pairs_nodup.
+
+(* the hypotheses are satisfiable: a 4-leaf star over a 3-leaf star, 45 refinement pairs *)
+Example C08_poly_example := poly_example.
+
